@@ -63,9 +63,13 @@ def check_partition(p, want, label):
 def case(args):
     from ..fixtures import c17fx as fx
 
-    kind, keysets, kinds, prov = args
+    kind, keysets, kinds, prov = args[:4]
+    override = len(args) > 4 and args[4]
     L = len(keysets) - 1
     specs = [{"keys": ks, "kind": kd} for ks, kd in zip(keysets, kinds)]
+    if override:
+        for sp in specs:
+            sp["override"] = True
     unstored = [j for j in range(L) if prov[j] == "unstored"]
     for j in unstored:
         specs[j]["unstored"] = True
@@ -153,9 +157,10 @@ def case(args):
                         bad = ("key-load-not-independent", "get(%r) opened %d data objects: %s" % (k, len(opened), opened[:3]))
                         break
         if bad:
-            sig = "%s|chain:%d|prov:%s|staging:%s|%s" % (kind, L, "+".join(sorted(set(prov))) or "-", "+".join(sorted(set(kinds))), bad[0])
-            out["violations"].append((sig, bad[1] + "\nbackend=%s key sets=%s staging=%s parent provenance=%s" % (kind, keysets, kinds, prov),
-                                      {"case": [kind, keysets, kinds, prov]}))
+            sig = "%s|chain:%d|prov:%s|staging:%s|%s%s" % (kind, L, "+".join(sorted(set(prov))) or "-", "+".join(sorted(set(kinds))), bad[0],
+                                                          "|shared-key-override" if override else "")
+            out["violations"].append((sig, bad[1] + "\nbackend=%s key sets=%s staging=%s parent provenance=%s shared key override=%s" % (kind, keysets, kinds, prov, bool(override)),
+                                      {"case": [kind, keysets, kinds, prov, bool(override)]}))
         out["outcomes"].append("%s|%s|%s|%s" % (kind, keysets, kinds, prov))
     finally:
         rm(top)
@@ -167,7 +172,7 @@ def run(ctx):
     maxL = 3 if thorough else 2
     ctx.rule = ("merge chains of length 0..%d; own key set per level from %s (values by key and level: int, str, list / DataFrame); "
                 "parent provenance per link in {computed in the nested call, memoized and read back from disk after reopening, "
-                "memoized and served by the memory cache, built in memory and never serialized (lowest levels)}; staging kinds all in-memory / all on-disk / alternating; backends "
+                "memoized and served by the memory cache, built in memory and never serialized (lowest levels)}; staging kinds all in-memory / all on-disk / alternating / in-memory over a defaultdict; chains whose levels are all stored under one shared key override; backends "
                 "filesystem, filesystem+cache, memory. distinct = (backend, key sets, staging, provenance)." % (maxL, KEYSETS))
     tasks = []
     for L in range(maxL + 1):
@@ -176,8 +181,9 @@ def run(ctx):
                 continue
             if L == 3 and (len(set(map(tuple, keysets))) < 3):
                 continue
-            for kinds in ({("mem",) * (L + 1), ("disk",) * (L + 1), tuple("mem" if i % 2 else "disk" for i in range(L + 1)),
-                           tuple("disk" if i % 2 else "mem" for i in range(L + 1))}):
+            for kinds in sorted({("mem",) * (L + 1), ("disk",) * (L + 1), tuple("mem" if i % 2 else "disk" for i in range(L + 1)),
+                                 tuple("disk" if i % 2 else "mem" for i in range(L + 1)), ("ddict",) * (L + 1),
+                                 tuple("ddict" if i == L else "mem" for i in range(L + 1))}):
                 for kind in ("fs", "fsc", "mem"):
                     provs = {"fs": ("fresh", "disk"), "fsc": ("fresh", "disk", "cache"), "mem": ("fresh", "cache")}[kind]
                     for prov in itertools.product(provs, repeat=L):
@@ -188,6 +194,10 @@ def run(ctx):
                     # child; values must be right all the same, on every call)
                     for u in range(1, L + 1):
                         tasks.append((kind, [list(k) for k in keysets], list(kinds), ["unstored"] * u + ["fresh"] * (L - u)))
+                    # every level of the chain stored under one shared key override
+                    if L >= 1 and kinds[0] in ("mem", "disk") and len(set(kinds)) == 1:
+                        for prov in itertools.product(provs, repeat=L):
+                            tasks.append((kind, [list(k) for k in keysets], list(kinds), list(prov), True))
     if ctx.seed:
         import random
 
@@ -203,7 +213,7 @@ def run(ctx):
 
 def replay(ctx, art):
     c = art["artefact"]["case"]
-    r = case((c[0], c[1], c[2], c[3]))
+    r = case(tuple(c))
     for v in r["violations"]:
         print(v[0], "\n", v[1])
     print("REPLAY property=C17 result=%s" % bool(r["violations"]))
